@@ -4,7 +4,9 @@
     by `self._is_top_level_aggregate(aggregate)`, so finer aggregates computed later cannot overwrite it; that predicate has to
     tell a district election from a statewide one (open known finding K2: it does not);
  R2 value sets (complete table): potential losses / gains are 0/1 vectors, losses only at predicted winners, gains only at
-    predicted losers, in both correlation modes and with/without call and stop vectors; called contests are zero in both;
+    predicted losers, in both correlation modes and with/without call and stop vectors; called contests are zero in both; and in
+    order-statistic mode the per-draw indicator matrices that are summed into the RANKED national totals are the constant called
+    outcome for a called contest (R2.called-ranking: otherwise its weight decides which draws the bounds are read from, F35);
  R3 formula shape: lower = P - sum(w * losses), upper = P + sum(w * gains), each output = round(x + base, 2) with the same base;
  R4 the weight-dictionary length check raises before the weights are used;
  R5 P = sum(w * [margin > 0]) under the hard threshold, weights ordered by sorted contest key;
@@ -245,6 +247,32 @@ def check(ctx):
                         bad.setdefault((name, "called", corr), []).append(f"{desc}: values {sorted(vals)}")
     ctx.extra["value_set_states"] = states
     ctx.extra["exhaustive"] = True
+    # R2.called-ranking: in order-statistic mode the bounds are read from the draws at two quantile positions of the RANKING of all draws by
+    # their national total. A called contest must be the same in every draw before those totals are formed - otherwise its weight takes
+    # part in the ranking and thereby in which draws the bounds of the OTHER contests are read from ("called contests contribute no
+    # uncertainty to either bound").
+    ranked = None
+    for _, _, t_, _ in s.assigns:
+        for x in ir.walk(t_):
+            if x[0] == "call" and ir.show(x[1]).endswith("argsort") and x[2]:
+                ranked = x[2][0]
+    ctx.require(ranked is not None, f"{f.where()}: ranking of the draws (argsort of the national totals) not found")
+    per_draw = []
+    for x in ir.walk(ranked):
+        if x[0] == "bin" and x[1] == "*" and (_strip_shape(x[2]) == W or _strip_shape(x[3]) == W):
+            per_draw.append(x[3] if _strip_shape(x[2]) == W else x[2])
+    ctx.sites("C08.R2.called-ranking", len(per_draw), 2, "weighted per-draw indicator matrices summed into the ranked national totals")
+    for k_, P_ in enumerate(per_draw):
+        problems = []
+        for c, want in ((1, 1), (0, 0)):
+            env = {A_called: I(c), ("isnone", A_called): False, ("isnone", A_stop): True, A_corr: B(False)}
+            val = ValueSets(env).ev(_see_through_selection(P_))
+            vals = None if val == TOP else {v[1] if v[0] != "b" else int(v[1]) for v in val}
+            if vals != {want}:
+                problems.append(f"called {'left' if c == 1 else 'right'}: per-draw indicator is {'any value of the draw' if vals is None else sorted(vals)}, expected the constant {want}")
+        ctx.ob("C08.R2.called-ranking", f"{f.qualname}|draw matrix {k_ + 1}: a called contest is decided in every draw", not problems, f.where(),
+               "in the national totals that rank the draws a called contest counts as its called outcome in every draw" if not problems
+               else "; ".join(problems) + " - its weight takes part in ranking the draws and so moves the bounds that are read from them")
     for name in ("losses", "gains"):
         for corr in (True, False):
             mode = "correlation mode" if corr else "order-statistic mode"
